@@ -72,6 +72,20 @@ impl<'l, Data> SourceList<'l, Data> {
             // once the caller is done with the slot, the list is well formed again provided id/sub-id were kept
             (final(r).tok().sid() == r.tok().sid() && final(r).tok().ssub() == 0) ==> final(self).wf(),
 //@ enditem
+//@ item src/list.rs / impl SourceList<'l, Data> / fn release_entry props=C01,C06,C15 optional
+//@ spec
+        // (There is no such function in the unchanged tree. Three independent seed agents introduced a helper of exactly this
+        //  name and signature for the failure path of register_dispatcher; if it exists it is held to what C06 / C15 / C01 ask
+        //  of ANY way of giving a slot back.)
+        requires old(self).wf(),
+        ensures
+            final(self).wf(),
+            // the slot list never shrinks: a slot's generation history outlives its occupants, or a token is handed out twice
+            final(self)@.len() == old(self)@.len(),
+            forall|i: int| 0 <= i < old(self)@.len() ==> (#[trigger] final(self)@[i]).tok() == old(self)@[i].tok(),
+            // only the addressed slot may change
+            forall|i: int| 0 <= i < old(self)@.len() && i != token.sid() ==> #[trigger] final(self)@[i] == old(self)@[i],
+//@ enditem
 //@ item src/list.rs / impl SourceList<'l, Data> / fn get props=C01,C06,C02 ret=r
 //@ entry
         proof { reveal(SourceList::looked_up); }
